@@ -388,13 +388,42 @@ func runORD08(p *Prog, r *RuleRun) {
 	}
 	// the wrapper type is the one whose Sync is the ORD-05 routine
 	params := make([]AV, len(root.Params))
+	nStr := 0
 	for i, prm := range root.Params {
 		if b, ok := prm.Type().Underlying().(*types.Basic); ok && b.Kind() == types.Uint64 {
 			params[i] = AV{Tag: "~size"}
 		}
+		if b, ok := prm.Type().Underlying().(*types.Basic); ok && b.Kind() == types.String {
+			params[i] = AV{Tag: []string{"~dir", "~name"}[nStr%2]}
+			nStr++
+		}
 	}
 	nOpen := 0
 	spec := &OrdSpec{Name: "fs.FS.Create", Call: fsCall,
+		Value: func(cx *Ctx, v ssa.Value, f *Fact) (AV, bool) {
+			// filepath.Join(dir, name) of Create's own parameters is the segment's final path
+			c, ok := v.(*ssa.Call)
+			if !ok || eventName(c) != "filepath.Join" || len(c.Call.Args) != 1 {
+				return AV{}, false
+			}
+			var tags []string
+			if sl, ok := c.Call.Args[0].(*ssa.Slice); ok {
+				if al, ok := sl.X.(*ssa.Alloc); ok {
+					n := 0
+					if at, ok := al.Type().(*types.Pointer).Elem().Underlying().(*types.Array); ok {
+						n = int(at.Len())
+					}
+					for i := 0; i < n; i++ {
+						a, _ := cx.E.loadCell(cellKey{al, fmt.Sprintf("[%d]", i)}, f)
+						tags = append(tags, a.Tag)
+					}
+				}
+			}
+			if len(tags) == 2 && tags[0] == "~dir" && tags[1] == "~name" {
+				return AV{Tag: "~path:final"}, true
+			}
+			return AV{Tag: "~path:other"}, true
+		},
 		OnBranch: func(cx *Ctx, ifi *ssa.If, truth bool, f *Fact) {
 			bo, ok := ifi.Cond.(*ssa.BinOp)
 			if !ok {
@@ -440,10 +469,16 @@ func runORD08(p *Prog, r *RuleRun) {
 				} else if !ok {
 					r.Unknown(key, posOf(p, ins), "open flags are not a compile-time constant")
 				} else if v := flags; v&oCreate != 0 && v&oExcl != 0 {
-					r.OK(key, posOf(p, ins), fmt.Sprintf("flags %#x contain O_CREATE|O_EXCL (%#x|%#x on this platform)", v, oCreate, oExcl))
+					if pt := cx.Eval(ci.Common().Args[0], f).Tag; pt != "~path:final" {
+						r.Fail(key, posOf(p, ins), "the exclusive create is not performed on the segment's own path filepath.Join(dir, name) ("+pt+"): exclusivity of a temporary or decorated name says nothing about a file that already has the segment's name")
+						return
+					}
+					r.OK(key, posOf(p, ins), fmt.Sprintf("flags %#x contain O_CREATE|O_EXCL (%#x|%#x on this platform), on filepath.Join(dir, name)", v, oCreate, oExcl))
 				} else {
 					r.Fail(key, posOf(p, ins), fmt.Sprintf("new segment files must be created exclusively: flags %#x lack O_CREATE|O_EXCL, an existing file would be silently reused", flags))
 				}
+			case "os.Rename":
+				r.Fail(cx.Key(ins, "os.Rename"), posOf(p, ins), "Create renames a file onto a name: rename(2) silently replaces an existing destination, so a segment file that already exists (possibly holding committed, fsynced entries) is swapped for an empty one instead of Create failing with EEXIST")
 			case "fileutil.Preallocate":
 				key := cx.Key(ins, "Preallocate")
 				ext, ok := ci.Common().Args[2].(*ssa.Const)
